@@ -69,6 +69,7 @@ func c15MultiKey() *TextSet {
 			`[{"a":1,"b":2,"c":3},{"d":4,"e":5,"f":6}]`, `[{"a":2,"b":3,"c":4},{"d":4,"e":6,"f":7},1]`, `{}`, `{"e":1,"f":2,"g":3,"h":4}`, `[1]`, `[1,2,3]`, `[3,2,1,4]`,
 			// keys on which a sloppy comparator ties or is not transitive: case variants, number-like, empty, non-ASCII
 			`{"id":1,"Id":2,"ID":3}`, `{"id":10,"Id":20,"ID":30,"iD":40}`, `{"1":1,"01":2,"a":3}`, `{"2":1,"10":2,"1a":3,"":4}`, `{"é":1,"e":2,"E":3,"É":4}`,
+			`{"rows":[{"10":1,"1a":2,"2":3,"":4},[{"2":1,"10":2,"1a":3}]]}`, `[[{"Id":1,"id":2,"ID":3}],{"k":{"2":1,"10":2,"1a":3}}]`,
 		}
 		var vs []V
 		for _, t := range texts {
